@@ -11,7 +11,7 @@ for name in sorted(os.listdir(root)):
     meta = json.load(open(os.path.join(d, "meta.json")))
     if meta.get("neutralised_by_fix"):
         print("%-8s skipped (neutralised by fix %s)" % (name, meta["neutralised_by_fix"])); continue
-    prop = meta["property"]
+    prop = (meta.get("check_with") or [meta["property"]])[0]
     if subprocess.run(["git", "-C", "/repo", "status", "--porcelain"], capture_output=True, text=True).stdout.strip():
         print("REFUSING: /repo has local changes"); sys.exit(2)
     if subprocess.run(["git", "-C", "/repo", "apply", os.path.join(d, "patch.diff")]).returncode != 0:
